@@ -64,6 +64,9 @@ type SimSigner struct {
 	Mode    int
 	Calls   int
 	Payload [][]byte
+	// OnSign, if set, runs inside Sign before the signature is produced
+	// (re-entrant use of the object that is being signed with).
+	OnSign func()
 }
 
 func (s *SimSigner) KeySpec() (signature.KeySpec, error) {
@@ -79,6 +82,11 @@ func (s *SimSigner) Sign(payload []byte) ([]byte, []*x509.Certificate, error) {
 	switch s.Mode {
 	case RSError:
 		return nil, nil, errors.New("sim: remote signer unavailable")
+	}
+	if s.OnSign != nil {
+		f := s.OnSign
+		s.OnSign = nil
+		f()
 	}
 	h := hashForKeyKind(s.Chain.Leaf.Key.Kind)
 	hh := h.New()
